@@ -1492,7 +1492,7 @@ class SCP_SCU_RoleSelectionNegotiation(ServiceParameter):
     @sop_class_uid.setter
     def sop_class_uid(self, value: OptionalUIDType) -> None:
         """Sets the SOP Class UID parameter."""
-        self._sop_class_uid = set_uid(value, "SOP Class UID")
+        self._sop_class_uid = set_uid(value, "SOP Class UID", allow_empty=False)
 
 
 class SOPClassExtendedNegotiation(ServiceParameter):
@@ -1614,7 +1614,7 @@ class SOPClassExtendedNegotiation(ServiceParameter):
     @sop_class_uid.setter
     def sop_class_uid(self, value: OptionalUIDType) -> None:
         """Sets the SOP Class UID parameter."""
-        self._sop_class_uid = set_uid(value, "SOP Class UID")
+        self._sop_class_uid = set_uid(value, "SOP Class UID", allow_empty=False)
 
 
 class SOPClassCommonExtendedNegotiation(ServiceParameter):
@@ -1766,7 +1766,7 @@ class SOPClassCommonExtendedNegotiation(ServiceParameter):
     @service_class_uid.setter
     def service_class_uid(self, value: OptionalUIDType) -> None:
         """Sets the Service Class UID parameter."""
-        self._service_class_uid = set_uid(value, "Service Class UID")
+        self._service_class_uid = set_uid(value, "Service Class UID", allow_empty=False)
 
     @property
     def sop_class_uid(self) -> UID | None:
@@ -1787,7 +1787,7 @@ class SOPClassCommonExtendedNegotiation(ServiceParameter):
     @sop_class_uid.setter
     def sop_class_uid(self, value: OptionalUIDType) -> None:
         """Sets the SOP Class UID parameter."""
-        self._sop_class_uid = set_uid(value, "SOP Class UID")
+        self._sop_class_uid = set_uid(value, "SOP Class UID", allow_empty=False)
 
 
 class UserIdentityNegotiation(ServiceParameter):
